@@ -138,7 +138,7 @@ Qed.
 
 (* so: whenever bytes are still pending at the rename, some killed prefix shows a file at FINAL that is neither the
    previous version's absence nor the payload - a strict prefix of it *)
-Corollary early_rename_partial : forall B f chunks s0,
+Corollary early_rename_strict_prefix : forall B f chunks s0,
   names s0 TEMP = None -> fds s0 f = None -> snd (bw_ops B f [] chunks) <> [] ->
   exists k c, content_at (run (firstn k (producer_early B f chunks)) s0) FINAL = Some c /\
               c <> concat chunks /\ exists tail, tail <> [] /\ c ++ tail = concat chunks.
